@@ -322,6 +322,8 @@ enum Corrupt {
     TruncateIn(usize),
     /// the underlying reader returns an I/O error when it reaches the middle of block j
     IoErrorIn(usize),
+    /// the underlying reader answers `Interrupted` once, on the first read of block j's header
+    InterruptedAt(usize),
 }
 
 fn gzi_of(offs: &[usize], payload_sizes: &[usize]) -> bgzf::gzi::Index {
@@ -344,6 +346,7 @@ struct RFile {
     offs: Vec<usize>,
     n_blocks: usize,
     io_error_at: Option<usize>,
+    interrupt_at: Option<usize>,
     payload: Vec<u8>,
 }
 
@@ -351,10 +354,16 @@ struct RFile {
 struct Src {
     cur: Cursor<Vec<u8>>,
     fail_at: Option<usize>,
+    /// answer `Interrupted` once when a read starts at this offset
+    interrupt_at: Option<usize>,
 }
 
 impl Read for Src {
     fn read(&mut self, buf: &mut [u8]) -> io::Result<usize> {
+        if self.interrupt_at == Some(self.cur.position() as usize) {
+            self.interrupt_at = None;
+            return Err(io::Error::from(io::ErrorKind::Interrupted));
+        }
         if let Some(f) = self.fail_at {
             let pos = self.cur.position() as usize;
             if pos >= f {
@@ -386,9 +395,13 @@ fn build_file(blocks: &[usize], eof: bool, corrupt: Corrupt) -> RFile {
         end - offs[j]
     };
     let mut io_error_at = None;
+    let mut interrupt_at = None;
     let flat: Vec<u8> = payloads.concat();
     match corrupt {
         Corrupt::None => {}
+        Corrupt::InterruptedAt(j) => {
+            interrupt_at = Some(if j < offs.len() { offs[j] } else { bytes.len() - 28 });
+        }
         Corrupt::IoErrorIn(j) => {
             io_error_at = Some(offs[j] + size(j) / 2);
         }
@@ -416,6 +429,7 @@ fn build_file(blocks: &[usize], eof: bool, corrupt: Corrupt) -> RFile {
         offs,
         n_blocks: blocks.len(),
         io_error_at,
+        interrupt_at,
         payload: flat,
     }
 }
@@ -434,7 +448,7 @@ fn vpos_of(file: &RFile, b: usize, o: usize) -> bgzf::VirtualPosition {
 
 fn run_script_sync(file: &RFile, script: &[ROp]) -> Vec<RObs> {
     use bgzf::io::Seek as _;
-    let mut r = bgzf::io::Reader::new(Src { cur: Cursor::new((*file.bytes).clone()), fail_at: file.io_error_at });
+    let mut r = bgzf::io::Reader::new(Src { cur: Cursor::new((*file.bytes).clone()), fail_at: file.io_error_at, interrupt_at: file.interrupt_at });
     let mut out = Vec::new();
     for op in script {
         let o = match *op {
@@ -533,6 +547,7 @@ fn reader_body(ch: &Chooser, cases: &[RCase], pools: &[usize], cost: CostModel, 
     let offs = case.file.offs.clone();
     let flen = case.file.bytes.len();
     let fail_at = case.file.io_error_at;
+    let interrupt_at = case.file.interrupt_at;
     let gzi = gzi_of(&case.file.offs, &case.file.sizes);
     let caught = vmc::catch(|| vrt::run(ch, RtConfig::new(pool, cost), move || {
         let vp = |b: usize, o: usize| {
@@ -540,7 +555,7 @@ fn reader_body(ch: &Chooser, cases: &[RCase], pools: &[usize], cost: CostModel, 
             bgzf::VirtualPosition::try_from((c as u64, o as u16)).unwrap()
         };
         let _ = n_blocks;
-        let mut r = bgzf::io::MultithreadedReader::new(Src { cur: Cursor::new(bytes), fail_at });
+        let mut r = bgzf::io::MultithreadedReader::new(Src { cur: Cursor::new(bytes), fail_at, interrupt_at });
         let mut out = Vec::new();
         let mut finish_result: Option<Result<(), io::ErrorKind>> = None;
         for op in &script {
@@ -861,6 +876,10 @@ fn main() {
         // seeks by uncompressed offset through a gzi: mid-block, first byte of a block, end, back
         cases.push(make_case(&[3, 5, 2], true, Corrupt::None, vec![Read(1), SeekIndex(4), Read(2), SeekIndex(3), Read(9), SeekIndex(10), Read(1), SeekIndex(0), ReadToEnd]));
         cases.push(make_case(&[3, 0, 4], false, Corrupt::None, vec![SeekIndex(3), Read(2), SeekIndex(7), Read(1), SeekIndex(2), ReadToEnd]));
+        // read_exact across blocks that asks for more than the stream holds (with and without the EOF
+        // marker): UnexpectedEof like the single-threaded reader, never a short Ok
+        cases.push(make_case(&[3, 5, 2], true, Corrupt::None, vec![ReadExact(2), ReadExact(9), Read(1)]));
+        cases.push(make_case(&[3, 5], false, Corrupt::None, vec![ReadExact(4), ReadExact(5), Read(1)]));
         // a member with the largest uncompressed size the format allows (65536 bytes; other tools write it,
         // noodles' writers stage at most 65495): seeks into it, to its last byte and past it
         cases.push(make_case(&[65536, 5], true, Corrupt::None, vec![Read(3), Seek(0, 100), Read(4), Seek(0, 65535), Read(3), Seek(1, 2), ReadToEnd]));
@@ -873,6 +892,13 @@ fn main() {
             cases.push(make_case(&[3, 5, 2], true, c, vec![Read(3), Read(3), Read(3), Read(3)]));
         }
         cases.push(make_case(&[3, 5, 2], true, Corrupt::Crc(2), vec![Read(2), Seek(1, 1), ReadToEnd]));
+        // a spurious Interrupted on the first read of a block header (also the first block, the block a
+        // seek lands on, and the EOF marker) changes nothing
+        for j in [0usize, 1, 2, 3] {
+            cases.push(make_case(&[3, 5, 2], true, Corrupt::InterruptedAt(j), vec![ReadToEnd]));
+        }
+        cases.push(make_case(&[3, 5, 2], true, Corrupt::InterruptedAt(1), vec![Read(2), Seek(1, 2), ReadToEnd]));
+        cases.push(make_case(&[3, 5, 2], true, Corrupt::InterruptedAt(2), vec![ReadExact(4), ReadExact(5), Finish]));
         for c in [Corrupt::TruncateIn(1), Corrupt::IoErrorIn(1), Corrupt::IoErrorIn(0)] {
             cases.push(make_case(&[3, 5, 2], true, c, vec![ReadToEnd]));
             cases.push(make_case(&[3, 5, 2], true, c, vec![Read(3), Read(3), Read(3), Finish]));
